@@ -73,6 +73,12 @@ inline Problem<DIM> gen_problem(uint64_t seed, int N, int order, int domain, boo
     p.P.resize(N + 1, DIM);
     for (int i = 0; i <= N; ++i)
         for (int d = 0; d < DIM; ++d) p.P(i, d) = r.real(-10.0, 10.0);
+    if (r.chance(0.12))
+    {
+        // exact zeros in the first coordinate of some waypoints (a cost that is linear in it vanishes there exactly)
+        for (int i = 0; i <= N; ++i)
+            if (r.chance(0.5)) p.P(i, 0) = 0.0;
+    }
     double minT = p.T[0];
     for (double t : p.T) minT = std::min(minT, t);
     // boundary derivatives <= 2 in the units implied by the durations
